@@ -334,6 +334,21 @@ class QueryCreator(BaseQueryCreator):
             pattern += "STR({0}) = \"{1}\") }} .\n".format(helpers[-1], _escape_literal(value))
             return pattern
 
+        def id_filter(node, value):
+            # The id is not exported as a triple of its own: the RDF writer names the
+            # node of an object with the odML namespace followed by the id.
+            return _text_filter(node, odml_uri + str(value))
+
+        def repository_filter(node, predicate, value):
+            # A repository is exported as a link to a terminology node shared by all
+            # objects with that repository; the URL is the rdf:type of that node.
+            helpers.append("?t{0}".format(len(helpers) + 1))
+            helpers.append("?t{0}".format(len(helpers) + 1))
+            pattern = "FILTER EXISTS {{ {0} {1} {2} . ".format(node, predicate, helpers[-2])
+            pattern += "{0} rdf:type {1} . ".format(helpers[-2], helpers[-1])
+            pattern += "FILTER (STR({0}) = \"{1}\") }} .\n".format(helpers[-1], _escape_literal(value))
+            return pattern
+
         if "Doc" in self.q_dict.keys():
             doc_attrs = self.q_dict["Doc"]
             if len(doc_attrs) > 0:
@@ -346,7 +361,11 @@ class QueryCreator(BaseQueryCreator):
                         attr = Document.rdf_map(i[0])
                         if attr:
                             re_sub = re.sub(odml_uri, "odml:", attr)
-                            if i[0] == "date":
+                            if i[0] == "id":
+                                self.query += id_filter("?d", i[1])
+                            elif i[0] == "repository":
+                                self.query += repository_filter("?d", re_sub, i[1])
+                            elif i[0] == "date":
                                 self.query += text_pattern("?d", re_sub, i[1])
                             else:
                                 self.query += "?d {0} \"{1}\" .\n".format(re_sub, _escape_literal(i[1]))
@@ -364,7 +383,12 @@ class QueryCreator(BaseQueryCreator):
                         attr = Section.rdf_map(i[0])
                         if attr:
                             re_sub = re.sub(odml_uri, "odml:", attr)
-                            self.query += "?s {0} \"{1}\" .\n".format(re_sub, _escape_literal(i[1]))
+                            if i[0] == "id":
+                                self.query += id_filter("?s", i[1])
+                            elif i[0] == "repository":
+                                self.query += repository_filter("?s", re_sub, i[1])
+                            else:
+                                self.query += "?s {0} \"{1}\" .\n".format(re_sub, _escape_literal(i[1]))
 
         if "Prop" in self.q_dict.keys():
             prop_attrs = self.q_dict["Prop"]
@@ -385,7 +409,9 @@ class QueryCreator(BaseQueryCreator):
                         attr = Property.rdf_map(i[0])
                         if attr:
                             re_sub = re.sub(odml_uri, "odml:", attr)
-                            if i[0] == "uncertainty":
+                            if i[0] == "id":
+                                self.query += id_filter("?p", i[1])
+                            elif i[0] == "uncertainty":
                                 self.query += text_pattern("?p", re_sub, i[1])
                             else:
                                 self.query += "?p {0} \"{1}\" .\n".format(re_sub, _escape_literal(i[1]))
